@@ -40,6 +40,22 @@ fn main() {
                 None => std::process::exit(3),
             }
         }
+        Some("carriers-probe") => {
+            install_panic_hook();
+            let n_cat = xsim::carriers::CATCHERS.len();
+            for (ci, c) in xsim::carriers::CARRIERS.iter().enumerate() {
+                for k in 0..n_cat {
+                    if ci != 0 && k != 0 { continue; }
+                    let Some((label, text)) = xsim::carriers::program(ci, k) else { println!("{} BADTYPE", c.0); continue };
+                    let mut sc = Scenario::standard(&text, Limits::calibration());
+                    sc.perms = [Some(true); 6];
+                    match run_scenario(&sc) {
+                        Err(e) => println!("{label}: COMPILE {e:?}"),
+                        Ok(r) => println!("{label}: {:?} calls={} writes={} problems={:?}", r.main_outcome(), r.counters.call_enters, r.counters.writes, r.problems),
+                    }
+                }
+            }
+        }
         Some("try") => {
             install_panic_hook();
             let path = args.get(2).unwrap_or_else(|| usage());
